@@ -247,10 +247,9 @@ class VartypeView:
     @view_method
     def remove_variable(self, v: Optional[Variable] = None) -> Variable:
         if v is None:
-            try:
-                v = self.variables[-1]
-            except IndexError:
+            if not len(self.variables):
                 raise ValueError("cannot pop from an empty model")
+            *_, v = self.variables  # the keys view of an object-dtype model is not subscriptable
         # set everything associated with `v` to 0
         for u, _ in self.iter_neighborhood(v):
             self.set_quadratic(u, v, 0)
